@@ -73,7 +73,15 @@ const MATS: [&str; 3] = ["A", "B", "C"];
 
 fn mk_case(out: &mut Vec<Case>, cell: String, tag: &str, opnds: Vec<Opnd>, ops: Vec<String>, alt: Option<Tree>) {
   let t = parse_ref(&opnds, &ops);
-  let flat = { let mut s = opnds[0].text(); for (i, op) in ops.iter().enumerate() { s.push_str(&format!(" {} {}", op, opnds[i + 1].text())); } s };
+  // the unparenthesised text spells each operator with one of the glyphs the grammar documents for it (chosen by a hash; one case in
+  // three keeps the first spelling everywhere); the parenthesised and stepwise references always use the first spelling
+  let flat = {
+    let canon_txt = { let mut s = opnds[0].text(); for (i, op) in ops.iter().enumerate() { s.push_str(&format!(" {} {}", op, opnds[i + 1].text())); } s };
+    let h = canon_txt.bytes().fold(0xcbf29ce484222325u64, |h, b| (h ^ b as u64).wrapping_mul(0x100000001b3));
+    let mut s = opnds[0].text();
+    for (i, op) in ops.iter().enumerate() { let alts = super::c01::spellings(op); let g = if h % 3 == 0 || alts[0] == "?" { op.as_str() } else { alts[((h >> (5 + 3 * (i % 16))) % alts.len() as u64) as usize] }; s.push_str(&format!(" {} {}", g, opnds[i + 1].text())); }
+    s
+  };
   let (src, tree) = match alt { Some(q) => (render(&q, true), q), None => (flat.clone(), t) };
   if depth(&tree) > 5 { return; }
   out.push(Case { id: format!("{};{};{}", cell, tag, src), cell, input: json!({"src": src, "paren": render(&tree, true), "tree": tree_json(&tree)}) });
